@@ -25,7 +25,16 @@ def run(chk, replay=None):
             if i == 2:      # rotated segments separated by blank lines; highly repetitive, so that the stored (compressed) file holds far fewer LF bytes than the log has lines
                 seg = lambda x, n: (x + b'\n') * n
                 data = pool[0] + b'\n\n' + seg(pool[1], 12) + b'\n' + seg(pool[2], 30) + b'\n\n\n' + seg(pool[0], 25) + b'   \n' + seg(pool[1], 8)
-            payloads.append((data, streamlib.gz_bytes(data, members=rng.choice([1, 1, 3]))))
+            gzb = streamlib.gz_bytes(data, members=rng.choice([1, 1, 3]))
+            if len(payloads) == 0:
+                # the first host of every world: a non-empty log whose COMPRESSED form holds no line feed at all (what is counted in the stored file is not lines);
+                # found by trying short logs from the pool until one compresses that way
+                for j in range(60):
+                    cand = b''.join(rng.choice(pool) + b'\n' for _ in range(1 + j % 2))
+                    nolf = streamlib.gz_without_lf(cand)
+                    if nolf is not None:
+                        data, gzb = cand, nolf; chk.dist('payload_compressed_without_lf'); break
+            payloads.append((data, gzb))
         window = rng.choice([None, None, (1700000000, 1700003600), (5, 6)])
         cfg = rng.choice([Cfg(), Cfg(nums=True, nss=True), Cfg(repl='ZZ', ips=True)])
         worlds.append((hs, srv, payloads, window, cfg, rng.choice(['digest', 'digest', 'none'])))
